@@ -205,6 +205,8 @@ func endpoints() []*Endpoint {
 		Must: never, Allowed: halfOpen, Limit: 1, Run: get("/loki/api/v1/query_range?query=" + q(sel) + "&start={Sns}&end={Ens}&limit=1")})
 	tr("tempo_tags_v2", "tempo_tags_v2", "/api/v2/search/tags?start={Ss}&end={Es}", open, indexOnlyAllowed, false)
 	tr("tempo_tag_values_v2", "tempo_tag_values_v2", "/api/v2/search/tag/cls/values?start={Ss}&end={Es}", open, indexOnlyAllowed, false)
+	tr("tempo_tags_v2_query", "tempo_tags_v2_query", "/api/v2/search/tags?q="+q(`{.job="c13"}`)+"&start={Ss}&end={Es}", open, closed, false)
+	tr("tempo_tag_values_v2_query", "tempo_tag_values_v2_query", "/api/v2/search/tag/cls/values?q="+q(`{.job="c13"}`)+"&start={Ss}&end={Es}", open, closed, false)
 	tr("tempo_tags_v1", "tempo_tags_v1", "/api/search/tags?start={Ss}&end={Es}", open, indexOnlyAllowed, false)
 	tr("tempo_tag_values_v1", "tempo_tag_values_v1", "/api/search/tag/cls/values?start={Ss}&end={Es}", open, indexOnlyAllowed, false)
 	add(&Endpoint{Name: "tempo_trace_by_id", Group: "tempo_trace_by_id", Items: "shared", Signal: -1, Unit: 1e9, Must: open, Allowed: closed,
